@@ -1415,6 +1415,31 @@ def bytes_shape(g, x, fr):
                 # a list may have been extended before the join
                 out.append(('more', sep))
             return out
+        if isinstance(y, _ast.Call) and isinstance(y.func, _ast.Attribute) \
+                and y.func.attr == 'join' and \
+                isinstance(y.func.value, _ast.Constant) and \
+                len(y.args) == 1 and isinstance(y.args[0], _ast.Name):
+            # parts = [a, b, c]; parts += [...] (under conditions);
+            # sep.join(parts): the start, then possibly more
+            nm = y.args[0].id
+            fn = fr.ctx.func
+            asg = [a for a in walk_own(fn.node)
+                   if isinstance(a, _ast.Assign) and len(a.targets) == 1 and
+                   isinstance(a.targets[0], _ast.Name) and
+                   a.targets[0].id == nm]
+            stores = [z for z in walk_own(fn.node)
+                      if isinstance(z, _ast.Name) and z.id == nm and
+                      isinstance(z.ctx, (_ast.Store, _ast.Del))]
+            aug = [a for a in walk_own(fn.node)
+                   if isinstance(a, _ast.AugAssign) and
+                   isinstance(a.target, _ast.Name) and a.target.id == nm and
+                   isinstance(a.op, _ast.Add)]
+            if len(asg) == 1 and nm not in fn.params and \
+                    isinstance(asg[0].value, _ast.List) and \
+                    len(stores) == 1 + len(aug):
+                lst = _ast.Call(func=y.func, args=[asg[0].value],
+                                keywords=[])
+                return flat(_ast.copy_location(lst, y))
         return [('opaque', y)]
     segs = flat(x)
     if grown:
